@@ -5,13 +5,14 @@ import os
 
 import core
 import tracehost as th
+from props import c03_loc as locx
 
 ID = 'C03'
 EXTRACT = ['locations']
 LEAN_TARGETS = ['DeepModel.Props.C03']
 AUDIT = 'DeepModel/Audit/C03.lean'
 DRIVER = 'DeepModel/Driver/C03.lean'
-BUDGET = {'quick': 300, 'thorough': 4000}
+BUDGET = {'quick': 360, 'thorough': 4800}
 TIME = {'quick': 75, 'thorough': 840}
 RULE = ('a case = a generated host program (1-3 modules + optionally a second directory with a same-named file; '
         'functions with nested calls across modules, if/else, for loops, try/except/finally, raising functions, '
@@ -29,14 +30,21 @@ RULE = ('a case = a generated host program (1-3 modules + optionally a second di
         'matching of its first event of a file (a LineLocation subclass whose path property is a gate); a quarter are '
         'registration histories on the real TracepointConfigService (add_custom of valid and of rejected tracepoints, '
         'remove_custom), judged per tracepoint id; ~40% of the modules are long files (code from line 301 / 1001 / '
-        '70001 on) and functions contain loops written on one line. '
+        '70001 on) and functions contain loops written on one line. Stream loc (every 6th case): 3-8 log tracepoints '
+        '(file names that are suffixes / prefixes / case variants of one another, paths with a directory part, method '
+        'tracepoints with a name) x 6-20 hand-made events on frame-like objects given to the real location_from_event '
+        'and to trace_call of a real handler: co_filename over plain names, absolute / relative / doubled-slash / dot '
+        'directories, one name in several directories, trailing slash, no slash, <string>, non-ASCII, backslashes; lines '
+        '0, negative, > 256, > 2**31; kinds line / call / return / exception / opcode / c_call / wrong case / empty; more '
+        'than half of the events are a tracepoint\'s own location with at most one thing changed. '
         'Non-trivial = at least one effect produced and at least one tracepoint '
         'never reached. Distinct = distinct canonical JSON.')
 TRUSTED = ['CPython 3.12 trace-event discipline (checked against the recorded reference stream on every run: the '
            'model and the oracle consume the recorded stream, not an assumed one)',
            'effects are attributed to events by (thread, file, line, function, bytecode offset) read from the host '
            'frame under the plugin call, and by order',
-           'PyX.basename models os.path.basename for POSIX paths; location ids path#line / path#name are injective '
+           'PyX.basename models os.path.basename for POSIX paths (compared with the real location_from_event on boundary '
+           'paths by the loc stream; c03_basename_spec); location ids path#line / path#name are injective '
            'for identifiers (modelled as the location itself)']
 ASSUMPTIONS = ['host programs are deterministic: the run under the recorder and the run under the agent deliver the '
                'same events (the harness compares host results of both runs)',
@@ -329,8 +337,12 @@ def gen_nameless(rng, tier):
 
 
 def gen(rng, tier):
-    k = 0
+    k = j = 0
     while True:
+        j += 1
+        if j % 6 == 5:
+            yield locx.gen_case(rng, tier)
+            continue
         k += 1
         if k % 8 == 0:
             yield gen_lifecycle(rng, tier)
@@ -355,7 +367,7 @@ def corpus():
            '    r = a + 1\n'                   # 8
            '    return r\n')                   # 9
     u = dict(th.UNLIMITED)
-    return [
+    return locx.corpus() + [
         # two tracepoints on one line (merged by convert_response) + a registered one on the same line (D8's shape)
         {'kind': 'prog', 'mode': 'sys', 'files': {'m0.py': src}, 'entries': [['m0', 'g', 1]], 'scripts': {},
          'sched': [], 'model_seed': 1,
@@ -463,7 +475,13 @@ def corpus():
 
 
 # --------------------------------------------------------------------------------------- implementation
+def is_loc(case):
+    return case.get('kind') == 'loc'
+
+
 def run_impl(case):
+    if is_loc(case):
+        return locx.run_impl(case)
     return th.run_case(case)
 
 
@@ -512,6 +530,8 @@ def gated_align(case, obs, t, events, observed, groups_of, what):
 
 
 def oracle(case, obs):
+    if is_loc(case):
+        return locx.oracle(case, obs)
     if 'raised' in obs:
         return ['the agent raised: ' + obs['raised']]
     v = []
@@ -553,6 +573,8 @@ def oracle(case, obs):
 
 
 def model_request(case, obs):
+    if is_loc(case):
+        return locx.model_request(case, obs)
     if 'raised' in obs:
         return None
     if case.get('lifecycle'):
@@ -589,6 +611,8 @@ def model_groups(case, effects, kinds=('f',)):
 
 
 def compare(case, obs, resp):
+    if is_loc(case):
+        return locx.compare(case, obs, resp)
     if 'error' in resp:
         return ['model error: ' + resp['error']]
     d = []
@@ -634,6 +658,8 @@ def compare(case, obs, resp):
 
 
 def label(case, obs):
+    if is_loc(case):
+        return locx.label(case, obs)
     if 'raised' in obs:
         return 'raised'
     n = sum(len([o for o in e if o['kind'] in FIRED]) for e in obs['effects'].values())
@@ -644,6 +670,8 @@ def label(case, obs):
 
 
 def nontrivial(case, obs):
+    if is_loc(case):
+        return locx.nontrivial(case, obs)
     if 'raised' in obs:
         return False
     hit = {o['tp'] for e in obs['effects'].values() for o in e if o['kind'] in FIRED}
@@ -656,7 +684,7 @@ FID_NAMELESS = 'C03/nameless-method-location'
 def known_finding(case, obs):
     """instance predicate: th.nameless_instance (a nameless method tracepoint on a file with source, and an event of
     that file at/after the end of its frame's source block)"""
-    if 'raised' in obs or 'ref' not in obs:
+    if is_loc(case) or 'raised' in obs or 'ref' not in obs:
         return None
     return FID_NAMELESS if th.nameless_instance(case, obs) else None
 
@@ -669,6 +697,9 @@ def known_replays():
 
 
 def shrink(case):
+    if is_loc(case):
+        yield from locx.shrink(case)
+        return
     tps = case['tps']
     for i in range(len(tps)):
         c = dict(case)
